@@ -323,7 +323,7 @@ def worker(acc, shard, nshards, tier, seed):
         acc.count('fits', leaves)
         acc.count('fits_' + sub, leaves)
         acc.extra['max_leaves_per_tree'] = max(acc.extra.get('max_leaves_per_tree', 0), leaves)
-        if acc.states % 211 == 1:
+        if not acc.samples or acc.states % 211 == 1:
             acc.sample({'data': data, 'config': cfg, 'leaves': leaves})
 
 
